@@ -36,7 +36,7 @@ Definition push (h : hook) (arr : list (N * N)) : hook :=
   | HKeyedT m tr => HKeyedT (push_keyed m arr) tr
   | HKeyedN m tr => HKeyedN (push_keyed m arr) tr
   | HSingle q tr last => HSingle (q ++ map snd arr) tr last
-  | HPass q tr => HPass (q ++ map snd arr) tr
+  | HPass q tr last => HPass (q ++ map snd arr) tr last
   | HKSingle m tr last => HKSingle (push_keyed m arr) tr last
   end.
 
@@ -64,7 +64,7 @@ Definition pairs_of (m : list (N * list N)) : list (N * N) :=
   concat (map (fun e => map (pair (fst e)) (snd e)) m).
 Definition content (h : hook) : list (N * N) :=
   match h with
-  | HStreamT q _ | HStreamN q _ | HSingle q _ _ | HPass q _ => unkeyed q
+  | HStreamT q _ | HStreamN q _ | HSingle q _ _ | HPass q _ _ => unkeyed q
   | HKeyedT m _ | HKeyedN m _ | HKSingle m _ _ => pairs_of m
   end.
 
@@ -99,7 +99,7 @@ Fixpoint run_sim_atomic (s : sim_astate) (sc : list tick_script) : res (list sim
    implementation's iteration order = the order oracle), `last` is tracked by tools/hydrob.py. *)
 Definition queues_of (h : hook) : list (N * list N) :=
   match h with
-  | HStreamT q _ | HStreamN q _ | HSingle q _ _ | HPass q _ => [(0, q)]
+  | HStreamT q _ | HStreamN q _ | HSingle q _ _ | HPass q _ _ => [(0, q)]
   | HKeyedT m _ | HKeyedN m _ | HKSingle m _ _ => m
   end.
 
